@@ -38,7 +38,7 @@ DEFAULT_DRIVER = os.path.join(os.path.dirname(os.path.abspath(__file__)), ".lake
 
 RULE = (
     "generation scenarios: every layout in LAYOUTS x force in {True,False} x existing tree in {absent, equal (a previous "
-    "force generation), different (one .py edited), partial (models/ and client.py deleted)} plus, for two layouts, a "
+    "force generation), different (one .py edited), partial (models/ and client.py deleted), nopy (package directory with data files only), emptydir} plus, for two layouts, a "
     "fault injected at each of the six emitters in both modes; a scenario is NON-TRIVIAL when the run changed the tree "
     "below the project root or raised.  _show_diffs: seeded random pairs of trees over a pool of 7 relative paths "
     "(.py and non-.py, nested) with contents drawn from a pool that differ in bytes, only in line terminators, or not at "
@@ -99,7 +99,7 @@ LAYOUTS = [
     ("a", "ab.core"),                 # str(core).startswith(str(out)) although core is not inside out
     ("ab.client", "a.core"),          # the other way round
 ]
-STATES = ["absent", "equal", "different", "partial"]
+STATES = ["absent", "equal", "different", "partial", "nopy", "emptydir"]
 EMITTERS = [
     ("exceptions", "pyopenapi_gen.emitters.exceptions_emitter", "ExceptionsEmitter"),
     ("core", "pyopenapi_gen.emitters.core_emitter", "CoreEmitter"),
@@ -109,6 +109,8 @@ EMITTERS = [
     ("mocks", "pyopenapi_gen.emitters.mocks_emitter", "MocksEmitter"),
 ]
 TMP_NAME = "TMPROOT"
+# a user module that ruff would rewrite (unused import, unsorted imports, formatting) if it were ever handed to it
+BYSTANDER_PY = "import sys,os\nimport json\nx=1\ndef f( a,b ):\n  return a\n"
 
 
 # ---------------------------------------------------------------------------------------------------------------------
@@ -227,7 +229,7 @@ def _fault(stage: str | None):
 
 
 def _generate(spec_path: str, root: str, out_pkg: str, core_pkg, force: bool, fault: str | None = None,
-              audit: bool = False):
+              audit: bool = False, post: bool = False):
     """-> (outcome, events)"""
     from pathlib import Path
 
@@ -238,7 +240,7 @@ def _generate(spec_path: str, root: str, out_pkg: str, core_pkg, force: bool, fa
     with _fault(fault), _quiet():
         _AUDIT["on"] = audit
         try:
-            ClientGenerator(verbose=False).generate(spec_path, Path(root), out_pkg, force=force, no_postprocess=True,
+            ClientGenerator(verbose=False).generate(spec_path, Path(root), out_pkg, force=force, no_postprocess=not post,
                                                     core_package=core_pkg)
             outcome = "success"
         except GenerationError as e:
@@ -375,13 +377,34 @@ def _prepare_state(ref_root: str, root: str, out_pkg: str, core_pkg, state: str)
     if state == "absent":
         os.makedirs(root)
         return
+    if state in ("nopy", "emptydir"):
+        # the output package directory exists but holds no python source at all (data files only / nothing)
+        os.makedirs(os.path.join(root, out_rel))
+        with open(os.path.join(root, "NOTES.txt"), "w") as f:
+            f.write("mine\n")
+        if state == "nopy":
+            core_rel = _pkg_dir(_core_fqn(out_pkg, core_pkg))
+            os.makedirs(os.path.join(root, core_rel), exist_ok=True)
+            with open(os.path.join(root, out_rel, "py.typed"), "w") as f:
+                f.write("")
+            with open(os.path.join(root, out_rel, "NOTES.txt"), "w") as f:
+                f.write("kept by the user\n")
+            with open(os.path.join(root, core_rel, ".exception_registry.json"), "w") as f:
+                f.write('{}')
+        return
     shutil.copytree(ref_root, root)
+    # user modules next to the generated packages, inside every ancestor package directory (not generated, not __init__.py)
+    for rel in {out_rel, _pkg_dir(_core_fqn(out_pkg, core_pkg))}:
+        parts = rel.split("/")
+        for i in range(1, len(parts)):
+            with open(os.path.join(root, *parts[:i], "user_mod.py"), "w") as f:
+                f.write(BYSTANDER_PY)
     # bystanders that do not belong to the generator
     with open(os.path.join(root, "NOTES.txt"), "w") as f:
         f.write("mine\n")
     os.makedirs(os.path.join(root, "otherpkg"))
     with open(os.path.join(root, "otherpkg", "mod.py"), "w") as f:
-        f.write("x = 1\n")
+        f.write(BYSTANDER_PY)
     with open(os.path.join(root, out_rel, "user_extra.py"), "w") as f:
         f.write("# user file inside the output package\n")
     if state == "different":
@@ -925,7 +948,7 @@ def _eval_c10(base: str, spec_path: str, ref_root: str, case: dict):
     out_rel, core_rel = _pkg_dir(o), _pkg_dir(_core_fqn(o, c))
     out_existed = os.path.exists(os.path.join(root, out_rel))
     before = _snapshot(root)
-    outcome, _ = _generate(spec_path, root, o, c, case["force"], case.get("fault"))
+    outcome, _ = _generate(spec_path, root, o, c, case["force"], case.get("fault"), post=bool(case.get("post")))
     after = _snapshot(root)
     changed = _diff_snap(before, after)
     fails = []
@@ -1129,6 +1152,10 @@ def _oracle_cases(rng: random.Random, scale: float):
                 faults = [None] + ([s for s, _m, _c in EMITTERS] if (scale >= 1.0 or st == "equal") else [])
                 for fl in faults:
                     cases.append({"prop": "C10", "layout": [o, c], "state": st, "force": force, "fault": fl})
+    # post-processing enabled (ruff over the generated files): containment must still hold
+    for (o, c) in (layouts[1:3] if scale < 1.0 else layouts[1:]):
+        for st, force in (("equal", True),) + ((("partial", True),) if scale >= 1.0 else ()):
+            cases.append({"prop": "C10", "layout": [o, c], "state": st, "force": force, "fault": None, "post": True})
     for (o, c) in layouts:
         for kind in C09_KINDS:
             if kind == "shared-registry":
